@@ -325,67 +325,162 @@ func switchFunc(p *packages.Package, tagType string) *ast.FuncDecl {
 	return nil
 }
 
-func algTable(p *packages.Package, fn string, name string) {
-	var fd *ast.FuncDecl
-	if strings.HasPrefix(fn, "switch:") {
-		if fd = switchFunc(p, fn[len("switch:"):]); fd == nil {
-			fail("%s: no function switching on %s", p.PkgPath, fn)
-		}
-	} else {
-		fd = findFunc(p, "", fn)
-	}
-	emit("Definition %s : list (list N * string) := [", name)
-	var rows []string
-	ast.Inspect(fd.Body, func(n ast.Node) bool {
-		cc, ok := n.(*ast.CaseClause)
-		if !ok {
-			return true
-		}
-		var vals []string
-		for _, e := range cc.List {
-			v, ok := evalInt(p, e)
-			if !ok {
-				fail("%s: non-constant case", fn)
-			}
-			vals = append(vals, fmt.Sprint(v))
-		}
-		var body []string
-		for _, st := range cc.Body {
-			ast.Inspect(st, func(m ast.Node) bool {
-				switch x := m.(type) {
-				case *ast.SelectorExpr:
-					if id, ok := x.X.(*ast.Ident); ok {
-						// a method or field of a local variable / parameter: its name is the author's choice, not a
-						// property of the table (renaming it must not change the generated table)
-						name := id.Name
-						if v, isVar := p.TypesInfo.Uses[id].(*types.Var); isVar && v.Parent() != p.Types.Scope() {
-							name = "_"
+// algRow is the normalised content of one alternative of an algorithm table: which hash constructor it names
+// (1 = sha1.New, 2 = md5.New, 3 = sha256.New, 0 = none), the integer constants it mentions (literals or named
+// constants, in source order) and whether it builds an error.
+type algRow struct {
+	keys []int64
+	hash int64
+	ints []int64
+	err  bool
+}
+
+func scanAlg(p *packages.Package, nodes []ast.Node, row *algRow) {
+	for _, nd := range nodes {
+		ast.Inspect(nd, func(m ast.Node) bool {
+			switch x := m.(type) {
+			case *ast.SelectorExpr:
+				if id, ok := x.X.(*ast.Ident); ok {
+					switch {
+					case x.Sel.Name == "New" && id.Name == "sha1":
+						row.hash = 1
+					case x.Sel.Name == "New" && id.Name == "md5":
+						row.hash = 2
+					case x.Sel.Name == "New" && id.Name == "sha256":
+						row.hash = 3
+					case (id.Name == "fmt" && x.Sel.Name == "Errorf") || (id.Name == "errors" && x.Sel.Name == "New"):
+						row.err = true
+					}
+					if c, ok := p.TypesInfo.Uses[x.Sel].(*types.Const); ok {
+						if v, exact := constant.Int64Val(constant.ToInt(c.Val())); exact && c.Val().Kind() == constant.Int {
+							row.ints = append(row.ints, v)
 						}
-						body = append(body, name+"."+x.Sel.Name)
-					}
-					return false
-				case *ast.BasicLit:
-					if x.Kind == token.INT {
-						body = append(body, x.Value)
-					}
-				case *ast.Ident:
-					if x.Name == "nil" {
-						body = append(body, "nil")
 					}
 				}
-				return true
+				return false
+			case *ast.BasicLit:
+				if x.Kind == token.INT {
+					if v, ok := evalInt(p, x); ok {
+						row.ints = append(row.ints, v)
+					}
+				}
+			case *ast.Ident:
+				if c, ok := p.TypesInfo.Uses[x].(*types.Const); ok && c.Val().Kind() == constant.Int {
+					if v, exact := constant.Int64Val(constant.ToInt(c.Val())); exact {
+						row.ints = append(row.ints, v)
+					}
+				}
+			}
+			return true
+		})
+	}
+}
+
+// algTable: the table of one algorithm family, whether written as a switch over the algorithm type in some function or
+// as a package-level map keyed by it; rows sorted by key, the default alternative (no key) last.
+func algTable(p *packages.Package, fn string, name string) {
+	var rows []algRow
+	if strings.HasPrefix(fn, "switch:") {
+		tagType := fn[len("switch:"):]
+		if fd := switchFunc(p, tagType); fd != nil {
+			ast.Inspect(fd.Body, func(n ast.Node) bool {
+				cc, ok := n.(*ast.CaseClause)
+				if !ok {
+					return true
+				}
+				var row algRow
+				for _, e := range cc.List {
+					v, ok := evalInt(p, e)
+					if !ok {
+						fail("%s: non-constant case", fn)
+					}
+					row.keys = append(row.keys, v)
+				}
+				var nodes []ast.Node
+				for _, st := range cc.Body {
+					nodes = append(nodes, st)
+				}
+				scanAlg(p, nodes, &row)
+				rows = append(rows, row)
+				return false
 			})
+		} else {
+			// a package-level map keyed by the algorithm type
+			found := false
+			for _, f := range p.Syntax {
+				for _, d := range f.Decls {
+					gd, ok := d.(*ast.GenDecl)
+					if !ok || gd.Tok != token.VAR {
+						continue
+					}
+					for _, sp := range gd.Specs {
+						vs := sp.(*ast.ValueSpec)
+						for _, val := range vs.Values {
+							cl, ok := val.(*ast.CompositeLit)
+							if !ok {
+								continue
+							}
+							mt, ok := p.TypesInfo.TypeOf(cl).Underlying().(*types.Map)
+							if !ok || !strings.HasSuffix(mt.Key().String(), tagType) {
+								continue
+							}
+							found = true
+							for _, e := range cl.Elts {
+								kv := e.(*ast.KeyValueExpr)
+								k, ok := evalInt(p, kv.Key)
+								if !ok {
+									fail("%s: non-constant map key", fn)
+								}
+								row := algRow{keys: []int64{k}}
+								scanAlg(p, []ast.Node{kv.Value}, &row)
+								rows = append(rows, row)
+							}
+						}
+					}
+				}
+			}
+			if !found {
+				fail("%s: neither a switch nor a map over %s", p.PkgPath, tagType)
+			}
+			rows = append(rows, algRow{err: true}) // a map has no default alternative: a miss is an error
 		}
-		key := "default"
-		if len(vals) > 0 {
-			key = ""
+	} else {
+		fd := findFunc(p, "", fn)
+		ast.Inspect(fd.Body, func(n ast.Node) bool {
+			cc, ok := n.(*ast.CaseClause)
+			if !ok {
+				return true
+			}
+			var row algRow
+			for _, e := range cc.List {
+				v, ok := evalInt(p, e)
+				if !ok {
+					fail("%s: non-constant case", fn)
+				}
+				row.keys = append(row.keys, v)
+			}
+			var nodes []ast.Node
+			for _, st := range cc.Body {
+				nodes = append(nodes, st)
+			}
+			scanAlg(p, nodes, &row)
+			rows = append(rows, row)
+			return false
+		})
+	}
+	sort.SliceStable(rows, func(i, j int) bool {
+		if len(rows[i].keys) == 0 || len(rows[j].keys) == 0 {
+			return len(rows[j].keys) == 0 && len(rows[i].keys) != 0
 		}
-		_ = key
-		rows = append(rows, fmt.Sprintf("  ([%s], %q)", strings.Join(vals, "; "), strings.Join(body, " ")))
-		return true
+		return rows[i].keys[0] < rows[j].keys[0]
 	})
-	emit("%s", strings.Join(rows, ";\n"))
-	emit("]%%N.")
+	emit("Definition %s : list (list N * (N * list N * bool)) := [", name)
+	var out []string
+	for _, r := range rows {
+		out = append(out, fmt.Sprintf("  (%s, (%d%%N, %s, %v))", nlist(r.keys), r.hash, nlist(r.ints), r.err))
+	}
+	emit("%s", strings.Join(out, ";\n"))
+	emit("].")
 }
 
 func intList(p *packages.Package, vs *ast.ValueSpec, i int, what string) []int64 {
@@ -418,6 +513,7 @@ func footprint(ps pkgs, paths []string) {
 	emit("   kind: assign / incdec / mapstore / append / addr (address taken) *)")
 	type w struct{ pkg, v, fn, kind string }
 	var vars []string
+	var kinds [][2]string
 	var writes []w
 	var aliases []w
 	for _, path := range paths {
@@ -427,6 +523,7 @@ func footprint(ps pkgs, paths []string) {
 			if v, ok := p.Types.Scope().Lookup(name).(*types.Var); ok {
 				globals[v] = true
 				vars = append(vars, path[strings.LastIndex(path, "/")+1:]+"."+name)
+				kinds = append(kinds, [2]string{path[strings.LastIndex(path, "/")+1:] + "." + name, varKind(v.Type())})
 			}
 		}
 		root := func(e ast.Expr) types.Object {
@@ -510,6 +607,18 @@ func footprint(ps pkgs, paths []string) {
 		emit("  %q%s", v, sep)
 	}
 	emit("].")
+	sort.Slice(kinds, func(i, j int) bool { return kinds[i][0] < kinds[j][0] })
+	emit("(* the shape of each package-level variable: value (no pointers inside), map, slice, func, pointer, interface, chan,")
+	emit("   sync (anything from sync or sync/atomic: a pool, a mutex, a counter) *)")
+	emit("Definition package_var_kinds : list (string * string) := [")
+	for i, k := range kinds {
+		sep := ";"
+		if i == len(kinds)-1 {
+			sep = ""
+		}
+		emit("  (%q, %q)%s", k[0], k[1], sep)
+	}
+	emit("].")
 	sort.Slice(writes, func(i, j int) bool {
 		a, b := writes[i], writes[j]
 		return a.pkg+a.v+a.fn+a.kind < b.pkg+b.v+b.fn+b.kind
@@ -545,6 +654,61 @@ func footprint(ps pkgs, paths []string) {
 	}
 	emit("%s", strings.Join(rows, ";\n"))
 	emit("].")
+}
+
+// varKind classifies a package-level variable by what sharing it between goroutines can mean.
+func varKind(t types.Type) string {
+	var hasSync func(t types.Type, depth int) bool
+	hasSync = func(t types.Type, depth int) bool {
+		if depth > 6 {
+			return false
+		}
+		if n, ok := t.(*types.Named); ok && n.Obj().Pkg() != nil {
+			if pp := n.Obj().Pkg().Path(); pp == "sync" || pp == "sync/atomic" {
+				return true
+			}
+		}
+		switch u := t.Underlying().(type) {
+		case *types.Struct:
+			for i := 0; i < u.NumFields(); i++ {
+				if hasSync(u.Field(i).Type(), depth+1) {
+					return true
+				}
+			}
+		case *types.Pointer:
+			return hasSync(u.Elem(), depth+1)
+		case *types.Array:
+			return hasSync(u.Elem(), depth+1)
+		}
+		return false
+	}
+	if hasSync(t, 0) {
+		return "sync"
+	}
+	if t.String() == "error" {
+		return "error" // a sentinel error value
+	}
+	switch u := t.Underlying().(type) {
+	case *types.Map:
+		return "map"
+	case *types.Slice:
+		return "slice"
+	case *types.Signature:
+		return "func"
+	case *types.Pointer:
+		return "pointer"
+	case *types.Interface:
+		return "interface"
+	case *types.Chan:
+		return "chan"
+	case *types.Struct:
+		for i := 0; i < u.NumFields(); i++ {
+			if k := varKind(u.Field(i).Type()); k != "value" {
+				return k
+			}
+		}
+	}
+	return "value"
 }
 
 func isRefType(t types.Type) bool {
@@ -783,7 +947,7 @@ func main() {
 	}{{root, "switch:ipmi.AuthenticationAlgorithm", "auth_table"}, {root, "switch:ipmi.IntegrityAlgorithm", "integrity_table"},
 		{root, "switch:ipmi.ConfidentialityAlgorithm", "confidentiality_table"}, {dcmi, "secondsMultiplier", "seconds_multiplier_table"}} {
 		t := t
-		section([]def{{t.name, "list (list N * string)", "[]"}}, func() { algTable(t.p, t.fn, t.name) })
+		section([]def{{t.name, "list (list N * (N * list N * bool))", "[]"}}, func() { algTable(t.p, t.fn, t.name) })
 	}
 	emit("")
 	// temporary completion codes: the constants compared in IsTemporary
@@ -836,6 +1000,14 @@ func main() {
 			return true
 		})
 		if v < 0 {
+			// hoisted to package level
+			if c, ok := root.Types.Scope().Lookup("kConstantLength").(*types.Const); ok {
+				if x, exact := constant.Int64Val(constant.ToInt(c.Val())); exact {
+					v = x
+				}
+			}
+		}
+		if v < 0 {
 			fail("kConstantLength not found")
 		}
 		emit("Definition kConstantLength : N := %d%%N.", v)
@@ -873,7 +1045,7 @@ func main() {
 		})
 	}
 	emit("")
-	section([]def{{"package_vars", "list string", "[]"}, {"global_writes", "list (string * string * string * string)", `[("?", "?", "?", "?")]`},
+	section([]def{{"package_vars", "list string", "[]"}, {"package_var_kinds", "list (string * string)", `[("?", "?")]`}, {"global_writes", "list (string * string * string * string)", `[("?", "?", "?", "?")]`},
 		{"global_aliases", "list (string * string * string * string)", `[("?", "?", "?", "?")]`}}, func() {
 		footprint(ps, []string{"github.com/gebn/bmc", "github.com/gebn/bmc/pkg/ipmi", "github.com/gebn/bmc/pkg/dcmi",
 			"github.com/gebn/bmc/internal/pkg/transport", "github.com/gebn/bmc/pkg/layerexts", "github.com/gebn/bmc/pkg/iana",
